@@ -47,7 +47,12 @@ Entries == Clients \X Resources \X Actions
 \*   resume : Subscribe with Resume = true
 \*   grp    : Subscribe as consumer `c` of the group with epoch `epoch`
 \*   ro     : SetStreamReadonly value
-Calls == [m : Methods, c : Clients, s : Streams, resume : BOOLEAN, grp : BOOLEAN, epoch : 0..2, ro : BOOLEAN]
+\*   cred   : how the caller authenticates on the TLS connection: with a certificate signed by the
+\*            configured CA ("verified"), with a self-signed certificate that merely CLAIMS the client's
+\*            name ("forged"), or without any certificate ("none")
+Creds == {"verified", "forged", "none"}
+Calls == [m : Methods, c : Clients, s : Streams, resume : BOOLEAN, grp : BOOLEAN, epoch : 0..2, ro : BOOLEAN,
+          cred : Creds]
 
 ResourceOf(call) ==
   IF call.m = "FetchMetadata" THEN Star
@@ -57,11 +62,18 @@ ResourceOf(call) ==
 
 Allowed(pol, call) == <<call.c, ResourceOf(call), ActionOf(call.m)>> \in pol
 
+VARIABLE clientAuth   \* tls.client.auth.enabled: client certificates are requested AND verified against the CA
+(* A caller has an identity only through a VERIFIED certificate: the server   *)
+(* must verify client certificates and the caller must present one that       *)
+(* verifies.  Without an identity there is no policy entry it could hold.      *)
+Identified(call) == clientAuth /\ call.cred = "verified"
+
 (* The property's notion of "lacks the matching entry".  For the group      *)
 (* methods the code defines no resource at all, so the weakest reading is   *)
 (* used: the client holds no entry with that action on any resource.        *)
 Unauthorised(pol, call) ==
-  IF call.m \in GroupMethods
+  IF ~Identified(call) THEN TRUE
+  ELSE IF call.m \in GroupMethods
   THEN \A r \in Resources : <<call.c, r, ActionOf(call.m)>> \notin pol
   ELSE ~Allowed(pol, call)
 
@@ -78,7 +90,7 @@ VARIABLES policy,      \* entries loaded in the enforcer
                        \* authorisation is enabled but the model or policy path is missing)
           obs          \* result of the last call
 
-vars == <<policy, policyFile, fileOK, st, cursors, members, sessions, enforcer, obs>>
+vars == <<policy, policyFile, fileOK, st, cursors, members, sessions, enforcer, clientAuth, obs>>
 
 (* What decides a call: the loaded policy - and nothing when no enforcer    *)
 (* exists.  With authorisation enabled and no enforcer every call is        *)
@@ -128,7 +140,7 @@ NoSubs(r) == [r EXCEPT !.plain = 0, !.gsub = NoSub]
 DoStep(step, sg, pol, call) ==
   LET s == call.s
       r == sg.st[s]
-      ok == Allowed(pol, call) IN
+      ok == Identified(call) /\ Allowed(pol, call) IN
   CASE step = "Auth" -> IF ok THEN sg ELSE End(sg, "Denied")
     [] step = "AuthReport" -> IF ok THEN sg ELSE [sg EXCEPT !.res = "Denied"]     \* reports, does not end the call
     [] step = "AuthOrClose" ->
@@ -182,24 +194,28 @@ Run(w, pol, call) == RunFrom(Steps(call.m), 1, Sigma(w), pol, call)
 \* a client calls an API method
 \* (every message of a PublishAsync session is a call of its own: it is authorised against the policy
 \* loaded at that moment, whatever the session was allowed to do before)
+\* a server that verifies client certificates refuses the TLS handshake of a caller without a certificate it
+\* can verify: the request never reaches a handler
+Turned(call) == clientAuth /\ call.cred # "verified"
 DoCall(call) ==
-  LET sg == Run(World, EffPolicy, call) IN
+  LET sg == IF Turned(call) THEN End(Sigma(World), "Err") ELSE Run(World, EffPolicy, call) IN
   /\ st' = sg.st /\ cursors' = sg.cursors /\ members' = sg.members
   /\ sessions' = IF call.m = "PublishAsync" THEN sessions \cup {call.c} ELSE sessions
   /\ obs' = [a |-> "Call", res |-> sg.res]
-  /\ UNCHANGED <<policy, policyFile, fileOK, enforcer>>
+  /\ UNCHANGED <<policy, policyFile, fileOK, enforcer, clientAuth>>
 
-\* an operator writes the policy file
+\* an operator puts a new revision of the policy file in place - written in place, or prepared earlier and
+\* renamed over the live file (which keeps the old modification time): the content is what counts
 DoEditPolicy(p) ==
   /\ policyFile' = p /\ fileOK' = TRUE
   /\ obs' = [a |-> "EditPolicy", res |-> "Ok"]
-  /\ UNCHANGED <<policy, st, cursors, members, sessions, enforcer>>
+  /\ UNCHANGED <<policy, st, cursors, members, sessions, enforcer, clientAuth>>
 
 \* the policy file disappears (removed before it is rewritten, unreadable volume ...)
 DoBreakFile ==
   /\ fileOK' = FALSE
   /\ obs' = [a |-> "BreakFile", res |-> "Ok"]
-  /\ UNCHANGED <<policy, policyFile, st, cursors, members, sessions, enforcer>>
+  /\ UNCHANGED <<policy, policyFile, st, cursors, members, sessions, enforcer, clientAuth>>
 
 \* SIGHUP: the enforcer reloads the file; a reload that fails keeps what was loaded, and the NEXT
 \* reload is served like any other
@@ -207,7 +223,7 @@ DoReload ==
   /\ enforcer
   /\ policy' = IF fileOK THEN policyFile ELSE policy
   /\ obs' = [a |-> "Reload", res |-> IF fileOK THEN "Ok" ELSE "Failed"]
-  /\ UNCHANGED <<policyFile, fileOK, st, cursors, members, sessions, enforcer>>
+  /\ UNCHANGED <<policyFile, fileOK, st, cursors, members, sessions, enforcer, clientAuth>>
 
 -----------------------------------------------------------------------------
 (* What the property demands.                                               *)
@@ -227,5 +243,5 @@ TypeOK ==
   /\ policy \subseteq Entries /\ policyFile \subseteq Entries
   /\ \A s \in Streams : st[s].len \in Nat /\ st[s].plain \in Nat
   /\ \A s \in Streams : cursors[s] \in {-1, 0}
-  /\ sessions \subseteq Clients /\ enforcer \in BOOLEAN /\ fileOK \in BOOLEAN
+  /\ sessions \subseteq Clients /\ enforcer \in BOOLEAN /\ fileOK \in BOOLEAN /\ clientAuth \in BOOLEAN
 =============================================================================
